@@ -294,6 +294,7 @@ def re_piece(r, depth, lazy):
         else: q = ("{%d,%d}" % (lo, hi), lo, hi)
     if q:
         node = rep(nd, q[1], q[2])
+        node["lz"] = bool(lazy)
         if q[0].startswith("{"): node["brace"] = True
         return t + q[0] + ("?" if lazy else ""), node
     return t, nd
@@ -340,7 +341,8 @@ def re_family(r, lazy):
     pre = r.choice(SAFE); post = r.choice(SAFE)
     body = alt([a[1] for a in alts])
     txt = "%s(%s){%d,%d}%s%s" % (re_lit(pre), "|".join(a[0] for a in alts), lo, hi, "?" if lazy else "", re_lit(post))
-    return txt, cat([lit(pre), rep(body, lo, hi), lit(post)])
+    node = rep(body, lo, hi); node["brace"] = True; node["lz"] = bool(lazy)
+    return txt, cat([lit(pre), node, lit(post)])
 
 
 def re_top(r, depth, anchors=True):
@@ -359,7 +361,14 @@ def re_top(r, depth, anchors=True):
     return t, nd
 
 
+def ast_size(nd):
+    if nd["t"] in ("cat", "alt"): return 1 + sum(ast_size(x) for x in nd["xs"])
+    if nd["t"] == "rep": return 1 + ast_size(nd["x"])
+    return 1
+
+
 def c03(res, tier, seed):
+    vm_budget = [2500 if tier == "quick" else 12000]
     r = yv.rng(seed, "c03")
     wd = yv.workdir("C03")
     npat = 500 if tier == "quick" else 6000
@@ -439,6 +448,9 @@ def c03(res, tier, seed):
                     continue
                 v = g["scans"][bi]["t"]["verdict"]
                 records.append({"kind": "matches", "ast": ast, "buf": list(o), "obs": v, "nocase": fl["nocase"], "dotall": fl["dotall"]})
+                # the engine model (ReVM.tla) is evaluated by TLC on the smaller cases (cost grows with code size x operand length)
+                if vm_budget[0] > 0 and ast_size(ast) <= 14 and len(o) <= 24:
+                    records[-1]["vm"] = True; vm_budget[0] -= 1
                 owners.append((src, o.hex(), v))
                 res.count(1, (src, o))
     judge_and_report(res, "C03", records, owners, lambda o: {"rule": o[0], "operand": o[1], "verdict": o[2]}, wd, "c03_matches")
